@@ -164,6 +164,9 @@ func c08ASTs(quick bool) []refxp.Expr {
 		neg(num("1")), bin("|", rel(child("a")), rel(child("b"))), rel(child("a", num("1"))), bin("mod", call("position"), num("2")), bin("<", call("position"), call("last"))}
 	for _, p := range preds {
 		add(abs(ds(child("*", p))), abs(ds(child("a", p))), filt(&refxp.Paren{X: abs(ds(child("*")))}, []refxp.Expr{p}), abs(child("*"), child("*", p)))
+		// a '//' in the middle of a path followed by a predicated step: still one
+		// numbering per parent (a//b[1] is not (a/descendant::b)[1])
+		add(abs(child("*"), ds(child("*", p))), abs(child("*"), ds(child("b", p))), rel(child("*"), ds(child("*", p))), abs(ds(child("*")), ds(child("b", p))), abs(child("*"), ds(child("a", p)), child("*")))
 		for _, q := range preds[:8] {
 			if !quick || (len(out)%3 == 0) {
 				add(abs(ds(child("*", p, q))), filt(&refxp.Paren{X: abs(ds(child("*")))}, []refxp.Expr{p, q}))
